@@ -147,6 +147,7 @@ def monitor (op obs : String) : String :=
           i ≥ 1 && (b == annEnd cs.c cs.s0 i || b == timeoutOf cs.c cs.s0 i)
         if !holds cs.c cs.s0 evs then "FAIL attempt-window-rule"
         else if !asyncOk then "FAIL stop-signal-block-not-a-window-boundary"
+        else if !noOverlap cs.c evs then "FAIL attempt-starts-before-previous-timeout"
         else "ok"
       | _, _ => "FAIL unparsable-observation"
     | _ => "FAIL unparsable-observation " ++ obs
